@@ -1271,11 +1271,14 @@ fn write_central_directory_header<T: Write>(writer: &mut T, file: &ZipFileData) 
     // version needed to extract
     writer.write_u16::<LittleEndian>(file.version_needed())?;
     // general puprose bit flag
+    // (Bit 3 is only ever set on an entry taken over by `new_append`: its local header and data
+    // descriptor stay as they are, and the check byte of a ZipCrypto entry depends on the bit.)
     let flag = if !file.file_name.is_ascii() {
         1u16 << 11
     } else {
         0
-    } | if file.encrypted { 1u16 << 0 } else { 0 };
+    } | if file.encrypted { 1u16 << 0 } else { 0 }
+        | if file.using_data_descriptor { 1u16 << 3 } else { 0 };
     writer.write_u16::<LittleEndian>(flag)?;
     // compression method
     #[allow(deprecated)]
